@@ -19,6 +19,7 @@ def vocabulary():
         T(['P', "(1, slice(None))"], 'B', '10 uL'), T(['P', "(1, 1)"], ['P', "(2, slice(None))"], '10 uL'),
         T('P', 'B', '5 uL'), T(['P', "(1, slice(None))"], ['P', "(2, 1)"], '4 uL'),
         T('X', 'B', '0.2 mL'), T('S', ['P', "(2, 2)"], '20 uL'), T('B', 'X', '0.3 mL'),
+        T('X', 'B', '1 mL'),                 # everything X was created with: X stays behind drained (amounts 0.0)
         T('A', ['P', "slice(None)", "(slice(1, 2), slice(None))"], '15 uL'),              # sub-slice of a slice (row 2)
         T(['P', "(slice(None), slice(None))", "(slice(0, 1), slice(1, 2))"], 'B', '2 uL'),  # sub-slice as source (A,2)
         T('B', 'A', '100 mL'),                                                         # infeasible (over-draw)
